@@ -121,7 +121,8 @@ def deepcopy(it, v, memo):
 
 def make_policy(program, table):
     """table: callee key pattern -> 'inline' | 'ref:<spec key>'.  Unlisted repository callees
-    are an error (DESIGN App. D: never an implicit inline)."""
+    are an error (UNDECIDED), except unlisted PRIVATE helpers (`_name`), which are verified as part
+    of their caller and reported (DESIGN App. D, 10.4)."""
     items = list(table.items())
     cache = {}
 
@@ -135,6 +136,13 @@ def make_policy(program, table):
                 if fnmatch.fnmatchcase(key, pat):
                     dec = d
                     break
+        if dec is None:
+            simple = key.rsplit(":", 1)[-1].rsplit(".", 1)[-1]
+            if simple.startswith("_") and not simple.startswith("__") and not key.startswith("spec."):
+                # a PRIVATE helper nobody wrote a contract for (typically extracted by a refactoring):
+                # verified as part of its caller -- always sound, and recorded in the evidence
+                dec = "inline"
+                it.ctx.notes.append("auto-inline " + key)
         if dec is None:
             raise Unsupported("no contract for callee " + key)
         if dec == "inline":
